@@ -86,6 +86,9 @@ type fwUniverse struct {
 	RAddr   []map[string][]int  `json:"raddr"`
 	Pairs   map[string][]int    `json:"pairs"`
 	Rules17 map[string][]fwRule `json:"rules17"`
+	// the port dimension (C16, vectors of kind "prules"): packet shapes around every port specification, with their own pair ids
+	PPkts  []fwPkt          `json:"ppkts"`
+	PPairs map[string][]int `json:"ppairs"`
 }
 
 type fwVecHead struct {
@@ -288,6 +291,57 @@ func (w *fwWorld) packet(id int) (firewall.Packet, string) {
 		LocalPort: uint16(s.Lp), RemotePort: uint16(s.Rp), Protocol: fwProto(s.Proto), Fragment: s.Frag}, w.u.PeerIds[j-1]
 }
 
+// ppacket concretises pair id = 10*k + j of the port shapes (universe.ppkts).
+func (w *fwWorld) ppacket(id int) (firewall.Packet, string) {
+	k, j := id/10, id%10
+	s := w.u.PPkts[k-1]
+	return firewall.Packet{LocalAddr: fwAddr(w.u.LAddr[s.L]), RemoteAddr: fwAddr(w.u.RAddr[j-1][s.R]),
+		LocalPort: uint16(s.Lp), RemotePort: uint16(s.Rp), Protocol: fwProto(s.Proto), Fragment: s.Frag}, w.u.PeerIds[j-1]
+}
+
+// fwPortClass names a port specification of a rule by its place in the port space.
+func fwPortClass(lo, hi int) string {
+	const max = 65535
+	switch {
+	case lo == 0 && hi == 0:
+		return "any"
+	case lo == -1:
+		return "fragment"
+	case lo == 0:
+		return "zero-range"
+	case lo == 1 && hi == max:
+		return "full-range"
+	case lo == hi && lo == 1:
+		return "single-lowest"
+	case lo == hi && lo == max:
+		return "single-highest"
+	case lo == hi:
+		return "single"
+	case lo == 1:
+		return "range-from-1"
+	case hi == max:
+		return "range-to-max"
+	}
+	return "range"
+}
+
+// fwPktClass names a packet shape by what it presents to a port table on the side a rule of direction dir looks at.
+func fwPktClass(s fwPkt, dir string) string {
+	port := s.Rp
+	if dir == "in" {
+		port = s.Lp
+	}
+	switch {
+	case s.Proto == "icmp" || s.Proto == "icmp6":
+		return s.Proto
+	case s.Frag:
+		return s.Proto + "/frag"
+	case port == 0:
+		return s.Proto + "/port0"
+	}
+	return s.Proto
+}
+
 func fwConcretePkt(p fwPkt) firewall.Packet {
 	return firewall.Packet{LocalAddr: fwAddr(p.La), RemoteAddr: fwAddr(p.Ra), LocalPort: uint16(p.Lp), RemotePort: uint16(p.Rp),
 		Protocol: fwProto(p.Proto), Fragment: p.Frag}
@@ -345,6 +399,12 @@ type fwVerdicts struct {
 // key(dir, want, pktId) names the mismatch class. Returns the number of Drop evaluations.
 func (w *fwWorld) checkVerdicts(res *vResult, fw *Firewall, env string, exp fwVerdicts, dirs []string,
 	key func(what, dir, want string, id int) string, detail any) int {
+	return w.checkVerdictsOn(res, fw, w.u.Pairs[env], w.packet, env, exp, dirs, key, detail)
+}
+
+// checkVerdictsOn: the same over an explicit pair set (pairs = the ids, packet = their concretisation).
+func (w *fwWorld) checkVerdictsOn(res *vResult, fw *Firewall, pairs []int, packet func(id int) (firewall.Packet, string), env string,
+	exp fwVerdicts, dirs []string, key func(what, dir, want string, id int) string, detail any) int {
 	n := 0
 	allow := map[string]map[int]bool{"in": fwSet(exp.AllowIn), "out": fwSet(exp.AllowOut)}
 	either := map[string]map[int]bool{"in": fwSet(exp.EitherIn), "out": fwSet(exp.EitherOut)}
@@ -353,8 +413,8 @@ func (w *fwWorld) checkVerdicts(res *vResult, fw *Firewall, env string, exp fwVe
 		if dir == "out" {
 			other = "in"
 		}
-		for _, id := range w.u.Pairs[env] {
-			pkt, peer := w.packet(id)
+		for _, id := range pairs {
+			pkt, peer := packet(id)
 			h := w.peers[env][peer]
 			fwResetConntrack(fw)
 			got, reason := fwDrop(fw, pkt, dir == "in", h, w.pool, nil)
